@@ -5,6 +5,13 @@ import json, sys
 pid = sys.argv[1]
 n = int(sys.argv[2]) if len(sys.argv) > 2 else 4
 tag = sys.argv[3] if len(sys.argv) > 3 else pid
+bold = len(sys.argv) > 4 and sys.argv[4] == "bold"
+BOLD = """
+  (b2) be BOLDER than cosmetic: prefer structural refactorings - split a long function into two or three private helpers (also helpers that return several values, generator helpers,
+      helpers with an early return inside a loop), merge duplicated branches, replace a flag by early exits or vice versa, group values into a small private NamedTuple / dataclass,
+      turn a match into a dispatch dict or a dict into a match, turn loops into comprehensions / generators / itertools or back, hoist a common tail out of branches, change a local data
+      representation (list <-> dict <-> set, index loop <-> zip / enumerate) with identical results, move a block of code from one method into a sibling or the base class when every caller
+      still sees the same behaviour.""" if bold else ""
 prop = [json.loads(l) for l in open("/verif/properties.jsonl") if json.loads(l)["id"] == pid][0]
 wt = f"/tmp/wt_{tag}"
 print(f"""You work ONLY inside the scratch git worktree {wt} (a checkout of the Python library SEDenmarkLab/molli). Do not read or write anything
@@ -22,7 +29,7 @@ Your task: produce {n} DISTINCT, independent, BEHAVIOUR-PRESERVING refactorings 
   (a) leave the observable behaviour of molli exactly as it is - in particular the property above must still hold, for every input, exactly as before;
   (b) be the kind of clean-up a maintainer would really do and merge: rename locals or parameters of private helpers, extract or inline a small helper, replace an idiom by an
       equivalent one (if/elif <-> match, loop <-> comprehension, `a or b` <-> explicit `is None` test where equivalent, `pop()/appendleft()` <-> `popleft()/append()`, tuple built through a
-      local, early return <-> nested if, f-string <-> format, try/finally <-> with/ExitStack, etc.), reorder independent statements, split a long function, move a constant into a table;
+      local, early return <-> nested if, f-string <-> format, try/finally <-> with/ExitStack, etc.), reorder independent statements, split a long function, move a constant into a table;{BOLD}
   (c) touch the core of the mechanism listed above (not only comments, docstrings or whitespace), be non-trivial (at least ~8 changed lines), and differ from the other {n-1} in kind and location;
   (d) keep the existing test suite exactly as before:  cd {wt} && /venv/bin/python -m pytest -q -p no:cacheprovider --timeout=900 --continue-on-collection-errors
       (expected: 81 passed, 4 failed [test_conformer_to_lib, test_ensemble_lib, test_load_all, test_loads_all fail for unrelated reasons], 19 skipped; other people run the same suite concurrently and
